@@ -571,11 +571,12 @@ def check_C17(tier, seed, t0, only=None):
                   ['the evaluator is g++ 12 on x86-64 (sizeof(void*) == 8); the converse of the noexcept implications is not demanded'], t0)
 
 
-C16_RULE = ('tapes generated (rapidcheck, seed-derived) by the C01/C03/C04 generators for 5 vector, 3 FlatSet and 2 SmallSet configurations, in two corpora: '
+C16_RULE = ('tapes generated (rapidcheck, seed-derived) by the C01/C03/C04 generators for 10 vector (odd element sizes 3 and 7 included), 3 FlatSet and 2 SmallSet configurations, in two corpora: '
             'portable (only operations every configuration offers; replayed by every build) and full (everything C++17/20 extras builds offer); each build '
             '= {c++11,14,17,20} x {AMC_NONSTD_FEATURES on,off} x {NDEBUG, assertions} x {-O0,-O2} without sanitizer (quick: 8-build pairwise covering '
             'subset, thorough: all 32); oracle: byte-identical transcripts (effective op, contents, size, capacity after every op) and no model violation '
-            'in any build; absence of the extras in pedantic builds is probed by SFINAE detection, of smallset.hpp before C++17 by a failing compile; '
+            'in any build; absence of the extras in pedantic builds is probed by SFINAE detection, of smallset.hpp before C++17 by a failing compile; the same probe prints compile-time facts (sizeof, alignof, noexcept of move/swap, trivially_relocatable, '
+            'trivially destructible for 14 element types x 11 container types) that must be identical in every build; '
             'non-trivial = tape with a boundary feature (C01/C03/C04 rule) replayed by builds of >= 2 language levels; distinct = distinct (config, transcript)')
 
 
